@@ -12,6 +12,7 @@ Section PtokInd.
   Hypothesis HObj : forall tag keys l, Forall P l -> P (PObj tag keys l).
   Hypothesis HTerm : forall z, P (PTerm z).
   Hypothesis HIter : forall tag, P (PIter tag).
+  Hypothesis HJob : forall tag rc n w ds keys l, Forall P l -> P (PJob tag rc n w ds keys l).
 
   Fixpoint ptok_ind' (t : ptok) : P t :=
     match t with
@@ -24,6 +25,10 @@ Section PtokInd.
                             match l with [] => Forall_nil P | c :: cs => Forall_cons c (ptok_ind' c) (go cs) end) l)
     | PTerm z => HTerm z
     | PIter tag => HIter tag
+    | PJob tag rc n w ds keys l =>
+        HJob tag rc n w ds keys l
+             ((fix go (l : list ptok) : Forall P l :=
+                 match l with [] => Forall_nil P | c :: cs => Forall_cons c (ptok_ind' c) (go cs) end) l)
     end.
 End PtokInd.
 
@@ -35,6 +40,11 @@ Proof. reflexivity. Qed.
 Lemma save_obj tag keys l d :
   save (PObj tag keys l) d =
   let '(ids, d') := save_all l d in (S (length d'), d' ++ [mkrow c_obj tag (VMap keys ids) false]).
+Proof. reflexivity. Qed.
+
+Lemma save_job tag rc n w ds keys l d :
+  save (PJob tag rc n w ds keys l) d =
+  let '(ids, d') := save_all l d in (S (length d'), d' ++ [mkrow c_job tag (VJob n w ds keys ids) rc]).
 Proof. reflexivity. Qed.
 
 Definition wf_all (l : list ptok) : Prop := Forall wf l.
@@ -79,6 +89,9 @@ Proof.
   - destruct (String.eqb (r_type r) c_obj); [|discriminate].
     destruct (mapM (load f d) ids) as [l|] eqn:Em; [|discriminate].
     rewrite (mapM_impl (load f d) (load f (d ++ e)) ids l (fun x y _ Hx => IH d e x y Hx) Em). exact H.
+  - destruct (String.eqb (r_type r) c_job); [|discriminate].
+    destruct (mapM (load f d) ids) as [l|] eqn:Em; [|discriminate].
+    rewrite (mapM_impl (load f d) (load f (d ++ e)) ids l (fun x y _ Hx => IH d e x y Hx) Em). exact H.
 Qed.
 
 Lemma load_fuel_S f : forall d id t, load f d id = Some t -> load (S f) d id = Some t.
@@ -94,6 +107,8 @@ Proof.
          | VMap keys ids => if String.eqb (r_type r) c_obj then option_map (PObj (r_tag r) keys) (mapM (load f d) ids) else None
          | VStatus z => if String.eqb (r_type r) c_term then Some (PTerm z) else None
          | VNull => if String.eqb (r_type r) c_iter then Some (PIter (r_tag r)) else None
+         | VJob jn jw jd keys1 ids => if String.eqb (r_type r) c_job
+             then option_map (PJob (r_tag r) (r_rec r) jn jw jd keys1) (mapM (load f d) ids) else None
          end
      end) in H.
   change (load (S (S f)) d id) with
@@ -106,6 +121,8 @@ Proof.
          | VMap keys ids => if String.eqb (r_type r) c_obj then option_map (PObj (r_tag r) keys) (mapM (load (S f) d) ids) else None
          | VStatus z => if String.eqb (r_type r) c_term then Some (PTerm z) else None
          | VNull => if String.eqb (r_type r) c_iter then Some (PIter (r_tag r)) else None
+         | VJob jn jw jd keys1 ids => if String.eqb (r_type r) c_job
+             then option_map (PJob (r_tag r) (r_rec r) jn jw jd keys1) (mapM (load (S f) d) ids) else None
          end
      end).
   destruct (row_of d id) as [r|]; [|discriminate].
@@ -114,6 +131,9 @@ Proof.
     destruct (mapM (load f d) ids) as [l|] eqn:Em; [|discriminate].
     rewrite (mapM_impl (load f d) (load (S f) d) ids l (fun x y _ Hx => IH d x y Hx) Em). exact H.
   - destruct (String.eqb (r_type r) c_obj); [|discriminate].
+    destruct (mapM (load f d) ids) as [l|] eqn:Em; [|discriminate].
+    rewrite (mapM_impl (load f d) (load (S f) d) ids l (fun x y _ Hx => IH d x y Hx) Em). exact H.
+  - destruct (String.eqb (r_type r) c_job); [|discriminate].
     destruct (mapM (load f d) ids) as [l|] eqn:Em; [|discriminate].
     rewrite (mapM_impl (load f d) (load (S f) d) ids l (fun x y _ Hx => IH d x y Hx) Em). exact H.
 Qed.
@@ -180,6 +200,8 @@ Proof.
                                            (mapM (load (hmax l) (d' ++ [mkrow c_list tag (VIds ids) false])) ids0) else None
                 | VStatus z => if String.eqb (r_type r) c_term then Some (PTerm z) else None
                 | VNull => if String.eqb (r_type r) c_iter then Some (PIter (r_tag r)) else None
+                | VJob jn jw jd keys1 ids0 => if String.eqb (r_type r) c_job
+                    then option_map (PJob (r_tag r) (r_rec r) jn jw jd keys1) (mapM (load (hmax l) (d' ++ [mkrow c_list tag (VIds ids) false])) ids0) else None
                 end
             end).
     rewrite row_last. cbn [r_val r_type r_tag]. rewrite String.eqb_refl.
@@ -204,6 +226,8 @@ Proof.
                                            (mapM (load (hmax l) (d' ++ [mkrow c_obj tag (VMap keys ids) false])) ids0) else None
                 | VStatus z => if String.eqb (r_type r) c_term then Some (PTerm z) else None
                 | VNull => if String.eqb (r_type r) c_iter then Some (PIter (r_tag r)) else None
+                | VJob jn jw jd keys1 ids0 => if String.eqb (r_type r) c_job
+                    then option_map (PJob (r_tag r) (r_rec r) jn jw jd keys1) (mapM (load (hmax l) (d' ++ [mkrow c_obj tag (VMap keys ids) false])) ids0) else None
                 end
             end).
     rewrite row_last. cbn [r_val r_type r_tag]. rewrite String.eqb_refl.
@@ -212,6 +236,32 @@ Proof.
     intros _. rewrite nth_error_app2 by lia. rewrite Nat.sub_diag. reflexivity.
   - intros tag d. simpl. split; [eexists; reflexivity|].
     intros _. rewrite nth_error_app2 by lia. rewrite Nat.sub_diag. reflexivity.
+  - intros tag rc jn0 jw0 jd0 keys l Hl d. rewrite save_job.
+    destruct (save_all_good l Hl d) as [[e He] Hm].
+    destruct (save_all l d) as [ids d'] eqn:Ea. simpl in He, Hm. simpl fst. simpl snd.
+    split; [exists (e ++ [mkrow c_job tag (VJob jn0 jw0 jd0 keys ids) rc]); rewrite He, app_assoc; reflexivity|].
+    intros W. destruct W as [_ W]. apply wf_inner in W.
+    change (height (PJob tag rc jn0 jw0 jd0 keys l)) with (S (hmax l)).
+    change (load (S (hmax l)) (d' ++ [mkrow c_job tag (VJob jn0 jw0 jd0 keys ids) rc]) (S (length d')))
+      with (match row_of (d' ++ [mkrow c_job tag (VJob jn0 jw0 jd0 keys ids) rc]) (S (length d')) with
+            | None => None
+            | Some r =>
+                match r_val r with
+                | VJson v => if reserved (r_type r) then None else Some (PTok (r_type r) (r_tag r) v (r_rec r))
+                | VIds ids0 => if String.eqb (r_type r) c_list
+                               then option_map (PList (r_tag r))
+                                      (mapM (load (hmax l) (d' ++ [mkrow c_job tag (VJob jn0 jw0 jd0 keys ids) rc])) ids0) else None
+                | VMap keys0 ids0 => if String.eqb (r_type r) c_obj
+                                    then option_map (PObj (r_tag r) keys0)
+                                           (mapM (load (hmax l) (d' ++ [mkrow c_job tag (VJob jn0 jw0 jd0 keys ids) rc])) ids0) else None
+                | VStatus z => if String.eqb (r_type r) c_term then Some (PTerm z) else None
+                | VNull => if String.eqb (r_type r) c_iter then Some (PIter (r_tag r)) else None
+                | VJob jn jw jd keys1 ids0 => if String.eqb (r_type r) c_job
+                    then option_map (PJob (r_tag r) (r_rec r) jn jw jd keys1) (mapM (load (hmax l) (d' ++ [mkrow c_job tag (VJob jn0 jw0 jd0 keys ids) rc])) ids0) else None
+                end
+            end).
+    rewrite row_last. cbn [r_val r_type r_tag]. rewrite String.eqb_refl.
+    rewrite (mapM_impl (load (hmax l) d') _ ids l (fun x y _ Hx => load_app _ _ _ _ _ Hx) (Hm W)). reflexivity.
 Qed.
 
 Theorem token_roundtrip t d :
